@@ -454,6 +454,8 @@ def check_atheris(ctx, c):
 
 RULE = RULE + " " + ('Since seeded round 4 the quantity facet also calls parse_unitvalue and parse_units directly, modifies the returned objects through their public setters (value, units, units-system components) and parses the same text again with every entry point: the value of a text cannot depend on what a caller did with an earlier result.')
 
+RULE = RULE + " " + ('Since seeded round 5 the blank mutations use every ASCII white-space character and also put it directly after the digits of an exponent.')
+
 FACETS = [
     Facet("one_factor", check_one, enumerate=enum_one, shards=(2, 2)),
     Facet("two_factor", check_two, enumerate=enum_two, shards=(6, 16)),
